@@ -75,7 +75,11 @@ def file_traj(nf, na, cell, seed, scale=1.0, time="arange"):
         if cell in ("tric", "vary"):
             A = np.tile([70.0, 80.0, 100.0], (nf, 1))
         if cell in ("vary", "ortho-vary"):
-            L = L + np.arange(nf)[:, None] * 0.25
+            L = L + (np.arange(nf) % 16)[:, None] * 0.25
+        if cell == "tiny":
+            # a cell so small that the file as a whole exceeds 1000 atoms / nm^3 (the documented threshold below which load_pdb
+            # believes a CRYST1 record) while a few of its atoms alone do not
+            L = np.tile([0.2, 0.2, 0.025 * max(na, 2)], (nf, 1))
         tr.unitcell_lengths = L.astype(np.float32)
         tr.unitcell_angles = A.astype(np.float32)
     return tr
